@@ -119,6 +119,14 @@ def dt_explore(res, mod, f, pastify, subs, top, tier):
                               % (len(hist), k + 1, got[k][0], got[k][1], fresh_out[q][k][0], fresh_out[q][k][1]))
                 res.outcomes['differs from fresh'] += 1
                 return
+            # a second reset() on the same object (the probe just fed is its pre-reset history)
+            r = impl.outcome(obj.reset)
+            got2 = m.run_probe(obj, q) if r[0] == 'ok' else None
+            if got2 != fresh_out[q]:
+                res.violation(mod, dict(case, second_reset=True), 'after a SECOND reset() on the same object the probe returns %r; a fresh monitor returns %r'
+                              % (got2 if got2 is None else [g[0] for g in got2], [g[0] for g in fresh_out[q]]))
+                res.outcomes['second reset differs'] += 1
+                return
             if hist:
                 res.nontrivial += 1
             res.outcomes['as fresh'] += 1
@@ -200,6 +208,12 @@ def ct_explore(res, mod, f, pastify, tier):
                                   % ([list(s) for s in hist], k + 1, got[k], want[k]))
                     res.outcomes['differs from fresh'] += 1
                     return
+                r = impl.outcome(obj.reset)
+                got2 = ct_probe(obj, vs, PROBE_SIGNALS[pi], ch) if r[0] == 'ok' else None
+                if got2 != want:
+                    res.violation(mod, dict(case, second_reset=True), 'after a SECOND reset() on the same object the probe returns %r; a fresh monitor returns %r' % (got2, want))
+                    res.outcomes['second reset differs'] += 1
+                    return
                 if hist:
                     res.nontrivial += 1
                 res.outcomes['as fresh'] += 1
@@ -242,7 +256,13 @@ def replay(case):
         if obj.sampling_violation_counter != 0:
             return ['sampling_violation_counter is %r right after reset()' % obj.sampling_violation_counter]
         got = m.run_probe(obj, q)
-        return [] if got == want else ['post-reset outputs %r differ from a fresh monitor %r' % (got, want)]
+        if got != want:
+            return ['post-reset outputs %r differ from a fresh monitor %r' % (got, want)]
+        if case.get('second_reset'):
+            obj.reset()
+            got2 = m.run_probe(obj, q)
+            return [] if got2 == want else ['after a second reset() the outputs %r differ from a fresh monitor %r' % (got2, want)]
+        return []
     vs = case['vars']
     sig = {v: [tuple(p) for p in s] for v, s in case['signals'].items()}
     m = CtResetModel(f, case['spec'], vs, sig, case['pastify'])
